@@ -1,8 +1,9 @@
 """C13 - multipart forms parse to exactly the parts that were encoded, however consumed."""
 PROP = 'C13'
 LEAN_MODULES = ['FalconModel.Multipart', 'FalconModel.PeekProofs', 'FalconModel.MultipartProofs', 'FalconModel.ReaderPublic',
-                'FalconModel.MultipartFlat', 'FalconModel.MultipartFlatProofs', 'FalconModel.ReaderMap', 'FalconModel.MultipartBridge']
-DRIVERS = ['mpdriver']
+                'FalconModel.MultipartFlat', 'FalconModel.MultipartFlatProofs', 'FalconModel.ReaderMap', 'FalconModel.MultipartBridge',
+                'FalconModel.MultipartAsync', 'FalconModel.MultipartAsyncProofs', 'FalconModel.MultipartAsyncReaderProofs']
+DRIVERS = ['mpdriver', 'madriver']
 THEOREMS = [
     # ---- cursor level (FalconModel/MultipartFlat.lean: reference encoder Mf.encodeForm, flat parser Mf.next / parseAll / parseFlat;
     #      proofs in FalconModel/MultipartFlatProofs.lean)
@@ -30,6 +31,27 @@ THEOREMS = [
     # facts about Mp.next itself that hold for every stream state (FalconModel/MultipartProofs.lean)
     'Mp.next_part', 'Mp.next_tooMany', 'Mp.next_finished', 'Mp.yields_count', 'Mp.part_count_limit_exact',
     'Mp.yields_delim', 'Mp.part_stream_delimiter',
+    # ---- the async parser (FalconModel/MultipartAsync.lean: Ma.next = MultipartForm._iterate_parts over a reader interface Ma.Ops, Ma.getData =
+    #      BodyPart.get_data; proofs in FalconModel/MultipartAsyncProofs.lean, for every reader satisfying the flat-cursor laws Ma.Lawful)
+    'Ma.async_refines_flat', 'Ma.sync_async_agree', 'Ma.sync_async_agree_parts', 'Ma.next_sync_eq', 'Ma.runA_sync_eq', 'Ma.next_step', 'Ma.run_refines',
+    'Ma.until_cases', 'Ma.pipeUntil_cases', 'Ma.readUntil_cases', 'Ma.peek2', 'Ma.read2', 'Ma.syncStep_eq', 'Ma.crun_sync_eq', 'Ma.crun_cur',
+    'Ma.async_error_only', 'Ma.async_part_count_limit_exact', 'Ma.runA_count', 'Ma.next_part', 'Ma.next_tooMany', 'Ma.next_finished',
+    'Ma.async_parse_encode', 'Ma.async_headers_size_limit_exact', 'Ma.async_part_count_limit_encoded',
+    'Ma.async_buffer_limit_exact', 'Ma.buffer_limit_every_call', 'Ma.tooLarge_sticky', 'Ma.getData_le_limit', 'Ma.getData_cases', 'Ma.pstep_cache',
+    'Ma.getData_tooLarge_cache', 'Ma.first_read', 'Ma.getDataPinned_after_tooLarge',
+    # (the two instances of the law structure: definitions whose fields are proofs)
+    'Ma.syncLawful', 'Ma.curLawful',
+    # ---- the transcription of falcon/asgi/reader.py (Ma.AR, generic in its chunk source, delimit = nested reader over parent._iter_delimited)
+    #      satisfies the laws: FalconModel/MultipartAsyncReaderProofs.lean; concrete corollaries for every chunking
+    'Ma.arLawful', 'Ma.async_concrete_refines_flat', 'Ma.sync_async_agree_concrete', 'Ma.async_concrete_parse_encode',
+    'Ma.async_concrete_error_only', 'Ma.async_chunking_independent', 'Ma.fresh_good',
+    'Ma.ar_history_refines_cursor', 'Ma.arStep_refines', 'Ma.read_refines', 'Ma.readall_refines', 'Ma.peek_refines', 'Ma.pipe_refines',
+    'Ma.iterate_refines', 'Ma.exhaust_refines', 'Ma.readUntil_refines', 'Ma.pipeUntil_refines', 'Ma.until_tail', 'Ma.pipe_spec',
+    'Ma.normLoop_spec', 'Ma.nextNorm_spec', 'Ma.straddle', 'Ma.U_spec', 'Ma.U_drop', 'Ma.stopAt_eq_min_U',
+    'Ma.step_spec', 'Ma.step_w', 'Ma.wSource_spec', 'Ma.dLoop_spec', 'Ma.dStart_spec', 'Ma.dPreLoop_spec', 'Ma.dAfterOutput_spec', 'Ma.dCheck_spec',
+    'Ma.readAll_spec', 'Ma.readN_spec', 'Ma.readFrom_spec', 'Ma.prepend_spec', 'Ma.peekLoop_spec', 'Ma.peek_spec', 'Ma.consume_spec',
+    'Ma.need_le_fuelOf', 'Ma.weight_lt_big', 'Ma.mu_le',
+    'Ma.PInv_reach', 'Ma.arRun_reach', 'Ma.arStep_reach', 'Ma.gstep_reach', 'Ma.nextNorm_reach', 'Ma.readFrom_reach', 'Ma.peek_reach', 'Ma.crun_arOps',
 ]
 STATEMENTS = {
     'Mf.parse_encode': 'for every list of parts (raw header lines + content), boundary, preamble, epilogue, with or without the final CRLF: if the form is BoundarySafe (the first --boundary of preamble++--boundary is the appended one; the first CRLF--boundary of content++CRLF--boundary is the appended one, for every part), HeadersSafe (no blank line inside a header block, no CRLF inside a line, no Content-Transfer-Encoding other than binary) and WithinLimits, then parseFlat(encodeForm(parts)) = ok [(header dict of the lines, content) for each part], in order; each side condition has a decided witness that it is needed',
@@ -66,6 +88,34 @@ STATEMENTS = {
     'Mp.yields_delim': 'after at least one yielded part the frame delimiter is the dash-boundary with CRLF prepended exactly once (RFC 7578 4.1), whatever the streams held',
     'Mp.part_stream_delimiter': 'every part stream ever handed out is the parent reader delimited by CRLF ++ "--" ++ boundary',
     'Mp.next_finished': 'whenever resuming does not yield a part (form end or any error) the generator is finished (a later next() is StopIteration)',
+    'Ma.async_refines_flat': 'THE ASYNC BRIDGE: for ANY reader implementation o : Ops satisfying the flat-cursor laws Lawful o (explicit structure fields: pipe_until / peek / read / read_until observe what Rd.cursorStep observes on text(r) and leave its rest; delimit(p, d) behaves for every history of application operations as a cursor over the text up to the first d and leaves the shared parent good and not beyond that d), chunk size >= len(CRLF--boundary), limits >= 0 or -1, and ANY application behaviour between resumptions that is a history of part-stream operations (read, readall, peek, read_until, pipe_until, pipe, exhaust, async for): iterating Ma.next (the transcription of MultipartForm._iterate_parts) hands out exactly the parts Mf.parseAll finds in the text still to come (same header dicts, same order, same StopAsyncIteration / MultipartParseError kind) and every part stream behaves operation by operation as a flat cursor over that part\'s content',
+    'Ma.sync_async_agree': 'the async parser over ANY lawful reader and the sync parser (Mp.next over the buffered-reader model of falcon/util/reader.py, any lawful source = any transport chunking), started on the same text with the same chunk size, limits and application scripts: same parts, same observation for every operation on every part stream, same end (composition of async_refines_flat with Mf.next_refines_flat)',
+    'Ma.sync_async_agree_parts': 'with different chunk sizes (each >= the delimiter length) and different application behaviour on the two stacks, still the same header dicts in the same order and the same end',
+    'Ma.next_sync_eq': 'the generator body of falcon/asgi/multipart.py instantiated with the SYNC reader model is literally Mp.next (the transcription of falcon/media/multipart.py __iter__): the two loops are the same function of the reader calls; every difference between the stacks is inside the reader',
+    'Ma.runA_sync_eq': 'hence iterating Ma.next over the sync reader is iterating Mp.next, observation by observation',
+    'Ma.syncLawful': 'the sync reader model Rd.R over any lawful source satisfies Lawful (text = abs, good = Inv and pos <= len): its fields are Rd.readerStep_refines / Rd.peek_refines / Rd.read_refines (C14) and Mf.part_stream_refines (the bridge) - so the laws are exactly what is already proved for falcon/util/reader.py',
+    'Ma.curLawful': 'the flat cursor itself (a reader that holds the whole text) satisfies Lawful: the laws are satisfiable by the specification',
+    'Ma.arLawful': 'for every chunk source that delivers its text in arbitrary pieces (also empty ones) and never raises (LawfulASource; a list of pieces is one), the transcription Ma.AR of falcon/asgi/reader.py - read, peek, read_until, pipe_until with and without consume_delimiter, and delimit as a SECOND reader (own buffer, own _iter_normalized) over parent._iter_delimited(d) - satisfies the flat-cursor laws Ma.Lawful with text = unread buffer ++ what _iter_normalized holds ++ what the source still delivers and good = the representation invariant',
+    'Ma.async_concrete_refines_flat': 'async_refines_flat for the CONCRETE async stack and every chunking: for EVERY list of transport pieces (any sizes, empty pieces anywhere), every reader chunk size >= len(CRLF--boundary), limits >= 0 or -1 and every application behaviour on the part streams, Ma.next over Ma.AR hands out exactly the parts Mf.parseAll finds in the joined body, with exactly their contents, and ends the same way',
+    'Ma.sync_async_agree_concrete': 'sync_async_agree for the two concrete stacks: the async parser over the transcribed async reader fed by ANY list of pieces and the sync parser over the buffered-reader model of falcon/util/reader.py on ANY lawful source, same body, same chunk size, same limits, same application scripts: same parts, same observation for every operation on every part stream, same end',
+    'Ma.async_concrete_parse_encode': 'a safe form within the limits, encoded by the reference encoder, cut into ANY pieces, read with any chunk size >= len(CRLF--boundary), consumed in any way through the concrete async stack: exactly the encoded parts in order, each part stream a flat cursor over exactly the encoded content, then StopAsyncIteration',
+    'Ma.async_concrete_error_only': 'whatever the pieces hold, the concrete async stack ends with StopAsyncIteration or one of the four MultipartParseErrors: never out of fuel (no hang), never ValueError',
+    'Ma.async_chunking_independent': 'two deliveries of the same body in different pieces give the same run of the concrete async stack',
+    'Ma.ar_history_refines_cursor': '(C14 for the transcription used here, generic in the source) every history of read / readall / peek / read_until / pipe_until / pipe / exhaust / async-for on one reader over a lawful chunk source returns operation by operation what the flat cursor returns on absA(r), leaves exactly its rest, keeps the invariant, the chunk size and consumed + future',
+    'Ma.step_spec': 'one resumption of _iter_with_buffer / _iter_delimited at any program counter from any state satisfying the generator invariant: a yield hands out the next bytes of the flat text within the generator share (everything / up to the first occurrence of the delimiter), StopAsyncIteration only when the share is used up; the recursion fuel suffices',
+    'Ma.straddle': 'cross-chunk delimiter detection of _iter_delimited: an occurrence that starts inside the buffered text is seen exactly by the search in buffer[len-(len(d)-1):] + chunk[:len(d)-1], provided the chunk is a full one (>= chunk_size >= len(d)) or the last',
+    'Ma.PInv_reach': 'whatever is done with a part stream (any number of __anext__ calls on parent._iter_delimited(d), abandoned anywhere): the parent satisfies the generator invariant, keeps its chunk size, and its text is the text at opening time minus j bytes with j not beyond the first d (a part stream never passes its delimiter)',
+    'Ma.arRun_reach': 'every reader operation touches its source only through __anext__ (structural, no lawfulness needed)',
+    'Ma.next_step': 'one resumption of the async generator over a lawful reader computes Mf.next on the text still to come (same frame, same headers / error kind; the part stream is delimit(d) of a good parent whose text is the flat cursor)',
+    'Ma.async_error_only': 'under the hypotheses of async_refines_flat the async iteration ends with StopAsyncIteration or one of the four MultipartParseErrors: never out of fuel (no hang), never ValueError',
+    'Ma.async_part_count_limit_exact': 'max_body_part_count = m for the async loop, for EVERY reader implementation (no law used), body, chunking, application behaviour and number of resumptions: at most m parts are handed out when m > 0, and the count error is raised only after exactly m parts and only if m > 0',
+    'Ma.async_headers_size_limit_exact': 'encoded forms through the async loop with max_body_part_headers_size = m: header blocks of at most m bytes (in particular exactly m) pass; the first block with more (in particular m+1) raises "incomplete body part headers" after exactly the parts before it',
+    'Ma.async_part_count_limit_encoded': 'encoded forms through the async loop: n <= m parts (or m = 0) come back completely; with more parts exactly the first m and then "maximum number of form body parts exceeded"',
+    'Ma.async_parse_encode': 'end to end for the async parser: a safe encoded form held by any lawful reader, consumed in any way: exactly the encoded parts and StopAsyncIteration, each part stream a flat cursor over exactly the encoded content',
+    'Ma.async_buffer_limit_exact': 'BodyPart.get_data (Ma.getData, sync and async have the same body) on an unread part stream over a lawful reader with max_body_part_buffer_size = m >= 0: content of at most m bytes (in particular exactly m) is returned whole and cached; content with more (in particular m+1) raises "body part is too large"',
+    'Ma.buffer_limit_every_call': '(repair 913e041 / F39) for EVERY reader implementation and every history of operations on a BodyPart (part.stream operations and get_data calls - get_text, .data, .text are get_data plus decoding - in any order): no get_data ever returns more than max_body_part_buffer_size bytes',
+    'Ma.tooLarge_sticky': '(repair 913e041 / F39) once get_data has raised "body part is too large", every later get_data on that part raises it again, whatever else the application does with the part in between',
+    'Ma.getDataPinned_after_tooLarge': 'REGRESSION WITNESS F39: the code before 913e041 (getDataPinned: cache assigned before the test, test only on the buffering call) raises on the first call and returns the truncated first m+1 bytes on the second; a decided example on the concrete reader sits beside it',
     'Rd.fragment_first_occ': 'cross-chunk delimiter detection: searching buffer[offset:] + next_chunk[:len(d)-1] finds the first occurrence that straddles the buffer edge',
 }
 TRUSTED = [
@@ -77,10 +127,11 @@ ASSUMPTIONS = [
     'Lean side of the bridge: chunk size >= len(CRLF--boundary) and >= 4 (Mf.next_refines_flat hypothesis hc); max_body_part_headers_size >= 0 or -1; the application\'s behaviour on a part stream is a (for the given body fixed) list of public reader operations with valid arguments (sizes None/-1/>= 0, delimiters non-empty and <= chunk size); get_data/get_text/get_media (BodyPart accessors, max_body_part_buffer_size) are not operations of the reader model',
     'reference forms are boundary-safe: CRLF--boundary occurs nowhere in CRLF+content, the preamble does not contain --boundary and ends with CRLF, names/filenames contain no double quote, backslash, CR or LF',
     'reader chunk sizes are >= len(CRLF--boundary) (always true for the default 32 KiB / 8 KiB and boundaries <= 70 bytes); smaller chunk sizes are exercised only in the correspondence, where next() raises ValueError on both sides',
-    'the async parser (falcon/asgi/multipart.py) has no Lean model of its own: it is tied to Mp.next by a second correspondence on observable outputs (headers, bytes returned by part-stream operations, error kinds) and to the sync parser by the agreement oracle',
+    'the async parser: Ma.next is the transcription of falcon/asgi/multipart.py _iterate_parts over a reader interface (Ma.Ops); async_refines_flat, sync_async_agree and the async limit theorems hold for every reader that satisfies the flat-cursor laws Ma.Lawful (explicit structure fields; proved for the sync reader model, for the cursor itself, and - arLawful - for the transcription Ma.AR of falcon/asgi/reader.py over any lawful chunk source incl. delimit as a nested reader over parent._iter_delimited); Ma.next over Ma.AR is tied to the real async parser by the madriver correspondence (headers, bytes, error kinds, tell()/eof of the part stream, tell() of the parent)',
+    'async side of the theorems: chunk size >= len(CRLF--boundary) and >= 4; application behaviour on a part stream is a list of read/readall/peek/read_until/pipe_until/pipe/exhaust/async-for operations with valid arguments (a second async for on the same stream raises OperationNotAllowed in the code and is not an operation of the model); get_data is modelled (Ma.getData), get_text/get_media are get_data/read + exhaust followed by decoding and are carried by the oracle',
     'the mapping of DelimiterError to MultipartParseError, parse_header/RFC 5987 decoding of name/filename and the BodyPart accessors are outside Mp.next and are carried by the oracle only',
 ]
-RULE = ('(a0) cursor-level correspondences: reference-encoded forms (oracle generator and forms with arbitrary CRLF-free header lines, 0-5 parts, boundaries 1..70), 40% intact / 40% 1-2 byte edits / 20% truncated, 12% messy; limits at block-size-1/size/size+1 and count n-1/n/n+1; reader chunk sizes from len(delimiter); every transport chunk plan; each part read to its end by read()/pipe()/read(k) loop/readline loop/read_until loop (sync) or read()/readall()/pipe()/read(k) loop/async iteration (async); (a) correspondence: forms of 0-4 parts over {a,b,CR,LF,-,:,space,boundary bytes} with valid/odd header lines, near-miss delimiters, 25% single/double byte edits, 10% truncations, '
+RULE = ('(a1) async model correspondence (madriver): messy / reference-encoded / edited / truncated bodies, boundaries 1..70, transport pieces of 1..1000 bytes incl. empty ones, reader chunk sizes from len(--boundary) (below the delimiter: ValueError on both sides) to 8192, header limits 0/20/40/8192, count limits 0/1/2/64, buffer limits 0/3/5/20/1MiB, interleaved __anext__ / read / readall / peek / read_until / pipe_until / pipe / exhaust / async for / get_data (repeated) on the part stream, 35% whole-form iterations; compared: headers, bytes, error kinds, tell()/eof of the part stream, tell() of the parent; (a2) buffer-limit oracle: 2-5 calls of get_data / .data / get_text / .text per part with the limit at len-1/len/len+1 and small values, both stacks; (a0) cursor-level correspondences: reference-encoded forms (oracle generator and forms with arbitrary CRLF-free header lines, 0-5 parts, boundaries 1..70), 40% intact / 40% 1-2 byte edits / 20% truncated, 12% messy; limits at block-size-1/size/size+1 and count n-1/n/n+1; reader chunk sizes from len(delimiter); every transport chunk plan; each part read to its end by read()/pipe()/read(k) loop/readline loop/read_until loop (sync) or read()/readall()/pipe()/read(k) loop/async iteration (async); (a) correspondence: forms of 0-4 parts over {a,b,CR,LF,-,:,space,boundary bytes} with valid/odd header lines, near-miss delimiters, 25% single/double byte edits, 10% truncations, '
         'declared length +-, short reads, chunk sizes from len(delimiter)-1 to 64, header-size limits 20/40/8192, part-count limits 0/1/2/64, interleaved next/read/peek/read_until/readline/pipe on the part stream; '
         '(b) oracle: reference-encoded forms of 0-5 parts (binary contents built from CR, LF, dashes, boundary prefixes, NUL, 0xff; json/urlencoded/text parts; 0..70000 bytes), boundaries of length 1..70 over the RFC 2046 bchars (quoted when needed, trailing blanks), '
         'optional preamble/epilogue/final CRLF, plain / UTF-8 / RFC 5987 filenames, ignored extra headers, header-name case; x transport chunking (1 byte .. whole, two-chunk splits at every offset for small bodies) x reader chunk size '
@@ -89,13 +140,19 @@ RULE = ('(a0) cursor-level correspondences: reference-encoded forms (oracle gene
         '(c) random single/double edits (delete, substitute, insert, truncate - also by Content-Length only) of valid bodies, plus for small bodies every single-byte deletion, every truncation and every substitution by each of CR LF - : ; space " = NUL 0xff 0xc3 A * (3 of them per position in quick), judged by a flat-buffer reference splitter; '
         'non-trivial = at least one part was yielded or a parse error was raised; distinct = distinct (body, boundary, options, script, chunking, path)')
 PARTIAL = ('Proved in Lean: parse_encode (with decided necessity witnesses), parseAll_encode with biting limits, headers_size_limit_exact, part_count_limit_exact (arbitrary and encoded bodies), '
-           'parser_terminates, invalid_is_parse_error_only on the flat parser Mf; and the full bridge next_refines_flat (Mp.next over the buffered reader = Mf on the text, every lawful source/chunking, '
-           'every history of public reader operations on the part streams) with consumption_independent, chunking_independent, impl_parse_encode. '
-           'NOT proved in Lean: (1) the async parser falcon/asgi/multipart.py has no Lean model - sync_async_agree rests on the two async correspondences (Mp.next and Mf.parseAll vs the real async parser) and the agreement oracle; '
-           '(2) buffer_limit_exact (max_body_part_buffer_size in BodyPart.get_data/get_text/get_media), parse_header / RFC 5987 decoding of name/filename, content_type, secure_filename and the mapping '
-           'DelimiterError -> MultipartParseError are outside Mp.next/Mf and are carried by the oracle only; (3) the bridge needs chunk size >= len(CRLF--boundary) (below it next() raises ValueError: correspondence only) '
-           'and max_body_part_headers_size >= 0 or -1; (4) application behaviour is a list of reader operations fixed per body (an adaptive application performs some such list on each body, so this loses nothing for a given run). '
-           'Mp.next = the real sync parser and Mf.parseAll = the real sync/async parsers are correspondences (differential), not proofs about Python.')
+           'parser_terminates, invalid_is_parse_error_only on the flat parser Mf; the full bridge next_refines_flat (Mp.next over the buffered reader = Mf on the text, every lawful source/chunking, '
+           'every history of public reader operations on the part streams) with consumption_independent, chunking_independent, impl_parse_encode; '
+           'for the ASYNC parser (Ma.next = transcription of falcon/asgi/multipart.py _iterate_parts over a reader interface): async_refines_flat, sync_async_agree, async_error_only, '
+           'async_headers_size_limit_exact, async_part_count_limit_encoded, async_parse_encode for EVERY reader satisfying the flat-cursor laws Ma.Lawful (explicit structure fields), next_sync_eq (over the sync reader '
+           'the async loop IS Mp.next), async_part_count_limit_exact for every reader whatsoever; arLawful: the transcription Ma.AR of falcon/asgi/reader.py, generic in its chunk source, with delimit as a second '
+           'reader over parent._iter_delimited (own buffer, own _iter_normalized), satisfies the laws - hence async_concrete_refines_flat, sync_async_agree_concrete, async_concrete_parse_encode, '
+           'async_concrete_error_only, async_chunking_independent for EVERY list of transport pieces; BodyPart.get_data (same body on both stacks): '
+           'async_buffer_limit_exact, buffer_limit_every_call, tooLarge_sticky (repair 913e041, F39) with the pinned regression witness. '
+           'NOT proved in Lean: (1) get_text/get_media decoding, parse_header / RFC 5987 decoding of name/filename, content_type, secure_filename and the mapping '
+           'DelimiterError -> MultipartParseError are outside the models and are carried by the oracle only; (2) the bridges need chunk size >= len(CRLF--boundary) (below it next() raises ValueError: correspondence only) '
+           'and max_body_part_headers_size >= 0 or -1; (3) application behaviour is a list of reader operations fixed per body (an adaptive application performs some such list on each body, so this loses nothing for a given run); '
+           'on the async side a second `async for` over the same stream (OperationNotAllowed) and tell()/eof are not part of the theorems (tell()/eof are compared in the correspondence). '
+           'Mp.next = the real sync parser, Ma.next over Ma.AR = the real async parser and Mf.parseAll = the real sync/async parsers are correspondences (differential), not proofs about Python.')
 JOBS = {'quick': 4, 'thorough': 16}
 
 CRLF = b'\r\n'
@@ -107,6 +164,9 @@ def run(ctx):
     _corr(ctx)
     _flat(ctx)
     _oracle(ctx)
+    # (the newer sections come last so that the random streams of the older ones are what they were)
+    _acorr(ctx)
+    _buffer_oracle(ctx)
 
 
 def _example(ctx):
@@ -377,6 +437,170 @@ def _corr(ctx):
             await async_case()
     asyncio.run(amain())
     asess.finish()
+
+
+# =========================================================================================== correspondence (Ma: async parser)
+
+def _acorr(ctx):
+    """Ties FalconModel/MultipartAsync.lean (Ma.next over the transcription Ma.AR of falcon/asgi/reader.py, the part stream being
+    the nested reader over parent._iter_delimited; Ma.getData) to the real falcon/asgi/multipart.py: same body, same transport
+    pieces, same reader chunk size, same limits, same interleaving of __anext__ and part-stream operations."""
+    sess = ctx.session('async MultipartForm._iterate_parts + BodyPart.get_data + part-stream ops = Ma.next / Ma.getData over the async reader model '
+                       '(headers, bytes, error kinds, tell()/eof of the part stream, tell() of the parent)', 'madriver')
+    _acorr_cases(ctx, sess, ctx.n(7000, 90000))
+    sess.finish()
+
+
+def _acorr_cases(ctx, sess, n):
+    import asyncio
+    from runner import hx, Hang
+    from falcon.asgi.reader import BufferedReader as ABR
+    from falcon.errors import DelimiterError, MultipartParseError
+    from falcon.media.multipart import MultipartParseOptions
+    from falcon.asgi.multipart import MultipartForm as AForm
+    rnd = ctx.rng
+
+    def hdrs(part):
+        return ';'.join(sorted(k.hex() + '=' + v.hex() for k, v in part._headers.items()))
+
+    def gen_body(b):
+        r = rnd.random()
+        if r < 0.45:
+            return _gen_messy_body(rnd, b), 'messy'
+        parts = _make_parts(rnd, b, nmax=4, big=False)
+        for q in parts:
+            if len(q['data']) > 40 and rnd.random() < 0.7: q['data'] = q['data'][:rnd.choice([0, 1, 7, 30])]
+            if rnd.random() < 0.5: q['block'] = rnd.choice([b'', b'Content-Type: a/b', b'content-disposition: form-data; name="x"', b'X: y\r\nContent-Type: t'])
+        parts = [q for q in parts if b'\r\n--' + b not in CRLF + q['data'] + CRLF]
+        pre = rnd.choice([b'', b'', b'preamble\r\n', b'\r\n', b'-', b'x\r\n-- no\r\n'])
+        if b'--' + b in pre + b'--' + b[:-1]: pre = b''
+        tail = rnd.choice([b'', CRLF, CRLF, b'\r\nepilogue', b'epi'])
+        body = _encode(parts, b, pre, tail)
+        if r < 0.75 or not body: return body, 'encoded'
+        if r < 0.9:
+            bb = bytearray(body)
+            for _ in range(rnd.choice([1, 1, 2])):
+                if not bb: break
+                i = rnd.randrange(len(bb)); k = rnd.random(); c = rnd.choice(b'\r\n-:; ab' + b)
+                if k < 0.35: del bb[i]
+                elif k < 0.8: bb[i] = c
+                else: bb.insert(i, c)
+            return bytes(bb), 'edited'
+        return body[:rnd.randrange(len(body) + 1)], 'truncated'
+
+    async def one():
+        b = rnd.choice([b'b', b'XY', b'-x', b'ab', b'B0UND', b'-']) if rnd.random() < 0.8 else _boundary(rnd)
+        body, kind = gen_body(b)
+        dlen = len(b) + 4
+        chunk = rnd.choice([dlen, dlen, dlen, dlen + 1, dlen + 1, dlen + 2, 9, 13, 16, 64, 64, 8192, dlen - 1, dlen - 2])
+        chunk = max(chunk, 1)
+        maxhdr = rnd.choice([8192] * 5 + [20, 40, 0]); maxcount = rnd.choice([64] * 4 + [1, 2, 0]); maxbuf = rnd.choice([1 << 20] * 3 + [0, 3, 5, 20])
+        pieces = []; i = 0
+        sizes = rnd.choice([[1], [1, 1, 2, 3], [1, 2, 3, 5, 8, 30], [5, 8, 30, 1000], [1000]])
+        while i < len(body):
+            k = rnd.choice(sizes); pieces.append(body[i:i + k]); i += k
+        for _ in range(rnd.choice([0, 0, 0, 1, 2])): pieces.insert(rnd.randint(0, len(pieces)), b'')
+
+        async def gen():
+            for c in pieces: yield c
+        opts = MultipartParseOptions(); opts.max_body_part_headers_size = maxhdr; opts.max_body_part_count = maxcount; opts.max_body_part_buffer_size = maxbuf
+        parent = ABR(gen(), chunk)
+        form = AForm(parent, b, None, opts); it = form.__aiter__(); finished = False; part = None; iterated = False
+        newline = f"manew {chunk} {','.join(hx(p) for p in pieces) or '_'} {b.hex()} {maxhdr} {maxcount} {maxbuf}"
+        sess.case({'body': body, 'boundary': b, 'kind': kind, 'pieces': [len(p) for p in pieces], 'chunk_size': chunk,
+                   'max_body_part_headers_size': maxhdr, 'max_body_part_count': maxcount, 'max_body_part_buffer_size': maxbuf})
+        sess.op(newline, 'ok')
+        hist = []; nontriv = False; hang = None
+        full = rnd.random() < 0.35     # iterate the whole form, one consumption step per part
+        for _ in range(40 if full else rnd.randint(1, 12)):
+            if part is None: op = 'next'
+            elif full: op = 'next' if hist[-1] != 'next' else rnd.choice(['next', 'read', 'readall', 'pipe', 'iter', 'getdata', 'exhaust', 'ru', 'peek'])
+            else: op = rnd.choice(['next', 'next', 'next', 'read', 'read', 'readall', 'ru', 'ru', 'pu', 'pipe', 'peek', 'peek', 'exhaust', 'iter', 'getdata', 'getdata'])
+            if op == 'iter' and iterated: op = 'readall'
+            try:
+                with alarm(3):
+                    if op == 'next':
+                        hist.append('next')
+                        if finished:
+                            sess.op('next', 'stop')
+                            if full: break
+                            continue
+                        iterated = False
+                        try:
+                            part = await asyncio.wait_for(it.__anext__(), 30); nontriv = True
+                            sess.op('next', f"part {hdrs(part)} ptell={parent.tell()}"); ctx.count('acorr_part')
+                        except StopAsyncIteration:
+                            finished = True; part = None; sess.op('next', f"end ptell={parent.tell()}"); ctx.count('acorr_end')
+                        except MultipartParseError as e:
+                            finished = True; part = None; k = _ERR.get(e.description, 'other:' + str(e.description)); nontriv = True
+                            sess.op('next', f"err {k} ptell={parent.tell()}"); ctx.count('acorr_err_' + k)
+                        except ValueError:
+                            finished = True; part = None; sess.op('next', f"err value ptell={parent.tell()}"); ctx.count('acorr_err_value')
+                        except (Hang, asyncio.TimeoutError):
+                            raise
+                        except Exception as e:  # noqa  (no such outcome exists in the model: a correspondence mismatch)
+                            finished = True; part = None; sess.op('next', f"err other:{type(e).__name__}")
+                        continue
+                    r = part.stream
+                    st = lambda: f" tell={r.tell()} eof={str(r.eof).lower()} ptell={parent.tell()}"
+                    line = None
+                    try:
+                        if op == 'read':
+                            k = rnd.choice([None, -1, 0, 1, 2, 3, 5, 9, 100]); line = f"p read {'none' if k is None else k}"
+                            out = await asyncio.wait_for(r.read(k), 30); sess.op(line, 'ok ' + out.hex() + st())
+                        elif op == 'readall':
+                            line = 'p readall'; out = await asyncio.wait_for(r.readall(), 30); sess.op(line, 'ok ' + out.hex() + st())
+                        elif op == 'peek':
+                            k = rnd.choice([-1, 0, 1, 2, 3, 9, 10000]); line = f"p peek {k}"; out = await asyncio.wait_for(r.peek(k), 30); sess.op(line, 'ok ' + out.hex() + st())
+                        elif op == 'ru':
+                            d = rnd.choice([b'\n', b'-', b'\r\n', b'--', b'a-a', b'ab', b'\r\n--' + b]); k = rnd.choice([None, -1, -1, 0, 1, 2, 3, 4, 8, 16, 100]); c = rnd.choice([0, 0, 1])
+                            line = f"p ru {d.hex()} {'none' if k is None else k} {c}"; out = await asyncio.wait_for(r.read_until(d, k, bool(c)), 30); sess.op(line, 'ok ' + out.hex() + st())
+                        elif op in ('pu', 'pipe', 'exhaust'):
+                            acc = []
+
+                            class Dst:
+                                async def write(self, data): acc.append(data)
+                            if op == 'pu':
+                                d = rnd.choice([b'\n', b'-', b'\r\n', b'--', b'ab']); c = rnd.choice([0, 0, 1]); line = f"p pu {d.hex()} {c}"
+                                await asyncio.wait_for(r.pipe_until(d, Dst(), bool(c)), 30); sess.op(line, 'ok ' + b''.join(acc).hex() + st())
+                            elif op == 'pipe':
+                                line = 'p pipe'; await asyncio.wait_for(r.pipe(Dst()), 30); sess.op(line, 'ok ' + b''.join(acc).hex() + st())
+                            else:
+                                line = 'p exhaust'; await asyncio.wait_for(r.exhaust(), 30); sess.op(line, 'unit' + st())
+                        elif op == 'iter':
+                            line = 'p iter'; iterated = True; acc = []
+
+                            async def run_iter():
+                                async for c in r: acc.append(c)
+                            await asyncio.wait_for(run_iter(), 30); sess.op(line, 'ok ' + b''.join(acc).hex() + st())
+                        elif op == 'getdata':
+                            line = 'p getdata'
+                            try:
+                                out = await asyncio.wait_for(part.get_data(), 30); sess.op(line, 'ok ' + out.hex() + st())
+                            except MultipartParseError as e:
+                                sess.op(line, 'err ' + ('toolarge' if e.description == 'body part is too large' else 'other:' + str(e.description)) + st()); ctx.count('acorr_toolarge')
+                        hist.append(line); ctx.count('acorr_op_' + op)
+                    except DelimiterError:
+                        sess.op(line, 'err delim' + st()); hist.append(line)
+                    except ValueError:
+                        sess.op(line, 'err value' + st()); hist.append(line); ctx.count('acorr_op_valueerror')
+                    except (Hang, asyncio.TimeoutError):
+                        raise
+                    except Exception as e:  # noqa
+                        sess.op(line, f'err other:{type(e).__name__}' + st()); hist.append(line)
+            except (Hang, asyncio.TimeoutError):
+                hang = f'{op} did not return (3 CPU-seconds / blocked for 30 s)'
+                break
+        ctx.oracle('async parser: every __anext__()/part-stream call returns (no hang) on arbitrary, also malformed, bodies', hang is None, hang,
+                   {'kind': 'acorr-' + kind, 'body': body, 'boundary': b, 'chunk_size': chunk, 'pieces': [len(p) for p in pieces],
+                    'max_body_part_headers_size': maxhdr, 'max_body_part_count': maxcount, 'history': hist})
+        ctx.count('acorr_' + kind); ctx.count('acorr_chunk_' + ('below_delimiter' if chunk < dlen else 'at_delimiter' if chunk == dlen else 'above'))
+        ctx.seen(('ma', newline, tuple(hist)), nontriv)
+
+    async def amain():
+        for _ in range(n):
+            await one()
+    asyncio.run(amain())
 
 
 # =========================================================================================== correspondence (Mf: cursor level)
@@ -1124,7 +1348,9 @@ def _oracle(ctx):
             b = rnd.choice([b'b', b'XyZ', b'-', b'0123456789'])
             parts = _make_parts(rnd, b, nmax=3, big=False)[:3]
             for p in parts:
-                if len(p['data']) > 30: p['data'] = p['data'][:30].replace(b'\r\n--' + b, b'zz')
+                if len(p['data']) > 30:
+                    p['data'] = p['data'][:30].replace(b'\r\n--' + b, b'zz')
+                    if p['kind'] in ('json', 'urlenc'): p['kind'] = 'bin'; p['obj'] = None   # no longer a document: get_media is not asked of it
             parts = [p for p in parts if b'\r\n--' + b not in CRLF + p['data'] + CRLF]
             body = _encode(parts, b); cth = 'multipart/form-data; boundary=' + b.decode()
             script = _script(rnd, parts); exp = expected_valid(parts, DEFAULT, script)
@@ -1209,6 +1435,111 @@ def _oracle(ctx):
     asyncio.run(main())
 
 
+def _buffer_oracle(ctx):
+    """F39 (fixed by 913e041): max_body_part_buffer_size is enforced on EVERY get_data()/get_text()/.data/.text call of any call
+    history, on both stacks: a call returns the whole content (never more than the limit) or raises MultipartParseError, and once
+    'body part is too large' was raised every later call raises MultipartParseError again."""
+    import asyncio
+    import io
+    from runner import Hang
+    from falcon.media.multipart import MultipartForm, MultipartParseOptions, MultipartParseError as MPE
+    from falcon.asgi.multipart import MultipartForm as AForm
+    from falcon.asgi.reader import BufferedReader as ABR
+    rnd = ctx.rng
+    NAME = ('buffer limit on every call: get_data/.data/get_text/.text return the whole content (never more than max_body_part_buffer_size bytes) or raise '
+            'MultipartParseError; after "body part is too large" every later call raises MultipartParseError again')
+
+    def judge(calls, content, buf):
+        """calls: [(accessor, ('ok', value) | ('MPE', description) | ('raised', repr))]"""
+        seen_large = False
+        for i, (acc, res) in enumerate(calls):
+            if res[0] == 'raised':
+                return f'call {i} ({acc}) raised {res[1]}'
+            if res[0] == 'ok':
+                v = res[1]
+                if seen_large:
+                    return f'call {i} ({acc}) returned {_short(v, 60)} after an earlier call had raised "body part is too large"'
+                b = v if isinstance(v, bytes) else v.encode('ascii')
+                if len(b) > buf:
+                    return f'call {i} ({acc}) returned {len(b)} bytes, limit {buf}'
+                if b != content:
+                    return f'call {i} ({acc}) returned {_short(b, 60)}, content is {_short(content, 60)}'
+            else:
+                if len(content) <= buf:
+                    return f'call {i} ({acc}) raised MultipartParseError({res[1]!r}) for {len(content)} bytes, limit {buf}'
+                seen_large = True
+        return None
+
+    async def main():
+        for _ in range(ctx.n(1500, 20000)):
+            b = rnd.choice([b'b', b'XY', b'B0UND', b'-x'])
+            parts = []
+            for i in range(rnd.choice([1, 1, 2, 3])):
+                data = bytes(rnd.choice(b'abc -\r\n012') for _ in range(rnd.choice([0, 1, 2, 3, 5, 9, 17, 40])))
+                while b'\r\n--' + b in CRLF + data + CRLF: data = data.replace(b'-', b'_')
+                parts.append({'block': b'Content-Disposition: form-data; name="f%d"' % i + rnd.choice([b'', b'\r\nContent-Type: text/plain', b'\r\nContent-Type: text/plain; charset=ascii']), 'data': data})
+            body = _encode(parts, b)
+            L = len(rnd.choice(parts)['data'])
+            buf = rnd.choice([max(0, L - 1), L, L + 1, 0, 3, 1 << 20])
+            plan = [[rnd.choice(['get_data', 'data', 'get_text', 'text']) for _c in range(rnd.randint(2, 5))] for _p in parts]
+            opts = MultipartParseOptions(); opts.max_body_part_buffer_size = buf
+            cplan = _chunk_plan(rnd, len(body)); pieces = _pieces(cplan, body)
+            for side in ('wsgi', 'asgi'):
+                got = []; err = None
+                try:
+                    with alarm(3):
+                        if side == 'wsgi':
+                            k = 0
+                            for p in MultipartForm(_WsgiInput(pieces), b, len(body), opts):
+                                calls = []
+                                for acc in plan[k]:
+                                    try:
+                                        v = p.get_data() if acc == 'get_data' else p.data if acc == 'data' else p.get_text() if acc == 'get_text' else p.text
+                                        calls.append((acc, ('ok', v)))
+                                    except MPE as e:
+                                        calls.append((acc, ('MPE', e.description)))
+                                    except Exception as e:  # noqa
+                                        calls.append((acc, ('raised', f'{type(e).__name__}: {e}'[:200])))
+                                got.append(calls); k += 1
+                        else:
+                            async def gen():
+                                for c in pieces: yield c
+
+                            async def go():
+                                k = 0
+                                async for p in AForm(ABR(gen(), rnd.choice([len(b) + 4, 64, 8192])), b, None, opts):
+                                    calls = []
+                                    for acc in plan[k]:
+                                        try:
+                                            v = await (p.get_data() if acc == 'get_data' else p.data if acc == 'data' else p.get_text() if acc == 'get_text' else p.text)
+                                            calls.append((acc, ('ok', v)))
+                                        except MPE as e:
+                                            calls.append((acc, ('MPE', e.description)))
+                                        except Exception as e:  # noqa
+                                            calls.append((acc, ('raised', f'{type(e).__name__}: {e}'[:200])))
+                                    got.append(calls); k += 1
+                            await asyncio.wait_for(go(), 30)
+                except (Hang, asyncio.TimeoutError):
+                    err = 'did not return'
+                except Exception as e:  # noqa
+                    err = f'iterating the form raised {type(e).__name__}: {e}'[:300]
+                what = err
+                if what is None and len(got) != len(parts):
+                    what = f'{len(got)} parts seen, {len(parts)} encoded'
+                if what is None:
+                    for k, calls in enumerate(got):
+                        w = judge(calls, parts[k]['data'], buf)
+                        if w: what = f'part {k}: {w}'; break
+                ctx.oracle(NAME, what is None, what and f'{side}: {what}',
+                           {'side': side, 'body': body, 'boundary': b, 'max_body_part_buffer_size': buf, 'calls_per_part': plan, 'chunk_plan': cplan,
+                            'observed': [[(a, r[0], r[1] if r[0] != 'ok' else (r[1] if isinstance(r[1], bytes) else r[1].encode())) for a, r in calls] for calls in got]})
+                ctx.count('buffer_oracle_' + side)
+                for calls in got:
+                    for a, r in calls: ctx.count('buffer_call_' + r[0])
+                ctx.seen(('buf', body, b, buf, tuple(map(tuple, plan)), cplan, side), True)
+    asyncio.run(main())
+
+
 def _short(x, n=160):
     s = repr(x)
     return s if len(s) <= n else s[:n] + f'...({len(s)} chars)'
@@ -1219,9 +1550,11 @@ LEVEL_TEXT = ('Machine-checked (Lean 4): (i) on the flat parser Mf (MultipartFor
               '(ii) the bridge next_refines_flat: Mp.next - the transcription of MultipartForm.__iter__ as a resumable step function over the buffered-reader model - computes Mf on the text still to come for every lawful '
               'source (every transport chunking), every buffer state, chunk size >= delimiter length and every history of public reader operations on the part streams (delimit() handled by a lawful presentation of the '
               'delimited source + naturality of all reader operations in the source), hence consumption_independent, chunking_independent, impl_parse_encode. '
-              'Mp.next is tied to the real sync parser (headers, every byte of every part-stream operation, error kinds, sizes asked of the raw stream) and to the real async parser (observable outputs), '
+              '(iii) the async parser: Ma.next - the transcription of MultipartForm._iterate_parts over a reader interface - refines Mf for every reader satisfying the flat-cursor laws (async_refines_flat), is literally Mp.next over the sync reader (next_sync_eq), '
+              'hence sync_async_agree; arLawful: the transcription of falcon/asgi/reader.py (generic chunk source, delimit = nested reader over parent._iter_delimited) satisfies the laws, so all of this holds for the concrete async stack and every list of transport pieces (async_concrete_refines_flat, sync_async_agree_concrete); async limits, error classification, get_data buffer limit on every call (F39 repaired, pinned witness). '
+              'Mp.next is tied to the real sync parser (headers, every byte of every part-stream operation, error kinds, sizes asked of the raw stream) and to the real async parser (observable outputs), Ma.next over the transcription of falcon/asgi/reader.py (nested delimit reader, tell()/eof) to the real async parser, '
               'Mf.encodeForm to the harness reference encoder (byte for byte) and Mf.parseAll to the real sync and async parsers (parts, contents, outcome on valid/edited/truncated/messy bodies) by differential correspondences on every run. An independent oracle (reference encoder and flat-buffer splitter written from the statement) '
               'decides parse/encode round trips, consumption and chunking independence, the three limits at their thresholds, damaged bodies and WSGI/ASGI agreement through the real handler, Request and App.')
-LEVEL_NOTE = ('PARTIAL: the async parser has no Lean model (sync_async_agree rests on correspondences + oracle); buffer_limit_exact and the BodyPart accessors (name/filename/RFC 5987/content_type) are oracle-only; '
+LEVEL_NOTE = ('PARTIAL: the BodyPart accessors other than get_data (name/filename/RFC 5987/content_type, get_text/get_media decoding) are oracle-only; chunk sizes below the delimiter length (ValueError) are correspondence-only; '
               'model = code is a differential correspondence. Trusted: Lean kernel + standard axioms, the harness, the reference encoder/splitter.')
-TECHNIQUE = 'Lean 4: round-trip/limit/termination proofs on a flat parser + refinement bridge from the parser model over the buffered reader (all chunkings, all consumption histories) + differential correspondences of both models vs. real sync and async parsers + reference-encoder oracle'
+TECHNIQUE = 'Lean 4: round-trip/limit/termination proofs on a flat parser + refinement bridge from the parser model over the buffered reader (all chunkings, all consumption histories) + async parse loop over a lawful reader interface (refinement, sync/async agreement) + differential correspondences of both models vs. real sync and async parsers + reference-encoder oracle'
